@@ -72,6 +72,7 @@ type strmChain struct {
 	fakes   []*blocks.Block // same height, previous-hash does not link
 	hexes   []string
 	fakeHex []string
+	sibHex  []string // same height and transactions, previous-hash of the block one height lower (a sibling of it)
 	hashHex []string
 	byHash  map[string]int   // RPC hash string -> height index k (relative to from)
 	byId    map[[32]byte]int // header hash of a real or fake block -> k
@@ -149,10 +150,22 @@ func strmBuildChain(from uint32, n int, seed int64) *strmChain {
 		c.fakes = append(c.fakes, fb)
 		c.hexes = append(c.hexes, hex.EncodeToString(b.Bytes()))
 		c.fakeHex = append(c.fakeHex, hex.EncodeToString(fb.Bytes()))
+		// a sibling of the previous block: a valid block whose previous-hash is the one the previous block has,
+		// so inside the ordering buffer it competes with the previous block for the same key
+		sh := *hdr
+		if i > 0 {
+			sh.PreviousHeaderHash = c.blks[i-1].Header.PreviousHeaderHash
+		} else {
+			sh.PreviousHeaderHash = fh.PreviousHeaderHash
+		}
+		sb := &blocks.Block{Header: &sh, Transactions: txs}
+		sid, _ := sh.Hash()
+		c.sibHex = append(c.sibHex, hex.EncodeToString(sb.Bytes()))
 		c.hashHex = append(c.hashHex, hex.EncodeToString(id[:]))
 		c.byHash[hex.EncodeToString(id[:])] = k
 		c.byId[id] = k
 		c.byId[fid] = k
+		c.byId[sid] = k - 1 // where it links, it links one height lower
 		prev = id
 	}
 	return c
@@ -181,10 +194,12 @@ func (c *strmChain) freshSet() *unspent.OutputSet {
 }
 
 // sequentially applying the first k blocks of the range (the reference of utxo_scan_eq_sequential)
-func (c *strmChain) sequential(k int) string {
+func (c *strmChain) sequential(k int) string { return c.sequentialFor(k, c.watched) }
+
+func (c *strmChain) sequentialFor(k int, watched [][]byte) string {
 	s := c.freshSet()
 	for i := 0; i < k; i++ {
-		s.UpdateFromBlock(c.blks[c.at(i)], c.watched)
+		s.UpdateFromBlock(c.blks[c.at(i)], watched)
 	}
 	return strmSetString(s)
 }
@@ -211,7 +226,7 @@ func strmParseSpec(f []string) (*strmSpec, error) {
 		return nil, errors.New("spec needs 9 fields")
 	}
 	s := &strmSpec{mode: f[0], faults: map[string]byte{}, fstr: f[6], cancel: f[7], late: -1}
-	if s.mode != "o" && s.mode != "u" && s.mode != "x" {
+	if s.mode != "o" && s.mode != "u" && s.mode != "x" && s.mode != "z" {
 		return nil, errors.New("mode")
 	}
 	from, e1 := strconv.ParseUint(f[1], 10, 32)
@@ -225,7 +240,7 @@ func strmParseSpec(f []string) (*strmSpec, error) {
 	if f[6] != "-" {
 		for _, it := range strings.Split(f[6], ",") {
 			kv := strings.Split(it, ":")
-			if len(kv) != 2 || len(kv[1]) != 1 || len(kv[0]) < 2 || !strings.Contains("trazsxyn", kv[1]) {
+			if len(kv) != 2 || len(kv[1]) != 1 || len(kv[0]) < 2 || !strings.Contains("trazsxynw", kv[1]) {
 				return nil, errors.New("fault")
 			}
 			s.faults[kv[0]] = kv[1][0]
@@ -390,6 +405,8 @@ func (run *strmRun) respond(pr *strmReq, kind byte) (strmResp, string) {
 		return strmResp{status: 200, body: okBody(`"` + h[:len(h)/2] + `"`)}, "e"
 	case 'n':
 		return strmResp{status: 200, body: okBody(`"` + c.fakeHex[c.at(pr.k)] + `"`)}, "n"
+	case 'w':
+		return strmResp{status: 200, body: okBody(`"` + c.sibHex[c.at(pr.k)] + `"`)}, "w"
 	}
 	return strmResp{status: 200, body: okBody(`"` + c.hexes[c.at(pr.k)] + `"`)}, "o"
 }
@@ -544,6 +561,13 @@ func strmRunOne(s *strmSpec) *strmOutcome {
 	}
 
 	set := chain.freshSet()
+	watched := chain.watched
+	if s.mode == "z" { // a scan that only prunes: no script to look for (nil and empty alternate)
+		watched = nil
+		if s.seed%2 == 0 {
+			watched = [][]byte{}
+		}
+	}
 	switch s.mode {
 	case "o", "u":
 		var next blockscan.NextBlockFunc
@@ -592,9 +616,9 @@ func strmRunOne(s *strmSpec) *strmOutcome {
 				}
 			}
 		}()
-	case "x":
+	case "x", "z":
 		go func() {
-			err := scanner.UpdateUtxos(ctx, set, chain.watched, s.from, to, uint32(s.p), func(h uint32) {
+			err := scanner.UpdateUtxos(ctx, set, watched, s.from, to, uint32(s.p), func(h uint32) {
 				onDelivery(int(int64(h) - int64(s.from)))
 			})
 			if err != nil {
@@ -684,13 +708,13 @@ func strmRunOne(s *strmSpec) *strmOutcome {
 		}
 		pr := parked[pick]
 		kind := s.faults[fmt.Sprintf("%c%d", pr.kind, pr.k)]
-		if pr.kind == 'h' && strings.IndexByte("sxyn", kind) >= 0 {
+		if pr.kind == 'h' && strings.IndexByte("sxynw", kind) >= 0 {
 			kind = 0 // block-only kinds do not apply to getblockhash
 		}
 		rs, class := run.respond(pr, kind)
 		if class == "e" {
 			faultsReleased++
-		} else if class == "n" {
+		} else if class == "n" || class == "w" {
 			nolinkReleased = append(nolinkReleased, pr.k)
 		}
 		run.mu.Lock()
@@ -764,13 +788,13 @@ func strmRunOne(s *strmSpec) *strmOutcome {
 		if finished && faulty && !cancelled && sawErr == 0 {
 			fail("a fault was injected (%s) but no call returned an error", s.fstr)
 		}
-	case "x":
+	case "x", "z":
 		if utxoDone {
 			got := strmSetString(set)
 			if utxoErr == nil {
 				if len(delivered) != s.n {
 					fail("FALSE SUCCESS: UpdateUtxos returned nil after %d of %d blocks", len(delivered), s.n)
-				} else if got != chain.sequential(s.n) {
+				} else if got != chain.sequentialFor(s.n, watched) {
 					fail("UTXO set after the scan differs from applying the blocks sequentially")
 				}
 				if faulty {
@@ -780,7 +804,7 @@ func strmRunOne(s *strmSpec) *strmOutcome {
 				if !faulty && !cancelled {
 					fail("no fault and no cancel, but UpdateUtxos returned an error: %v", utxoErr)
 				}
-				if got != chain.sequential(len(delivered)) {
+				if got != chain.sequentialFor(len(delivered), watched) {
 					fail("UTXO set after a failed scan differs from applying the %d scanned blocks sequentially", len(delivered))
 				}
 			}
@@ -1030,6 +1054,12 @@ func (r *Runner) strmAdd(res *strmResult, tag string) {
 	}
 	args := append(append([]string{}, res.spec...), res.events)
 	c := &Case{Op: "stream.validate", Args: args, Go: "ok valid", Mode: Full, Direct: res.direct, NonTrivial: true, Tag: tag}
+	if len(res.spec) == 9 && (strings.Contains(res.spec[6], ":w") || res.spec[0] == "z") {
+		// a sibling block is an environment behaviour the transition system does not have (its buffer is a
+		// list of heights, not a map keyed by previous-hash): these runs are judged by the Go-side oracles alone;
+		// so are the scans without a script to look for (the transition system has no such parameter)
+		c.Op, c.Mode, c.Go = "stream.direct", GoOnly, "ok"
+	}
 	if res.crashed {
 		c.Go = "panic"
 		c.Direct = append(c.Direct, "PANIC: "+res.detail)
@@ -1140,6 +1170,30 @@ func init() {
 		}
 		return "ok valid", res.direct
 	})
+	reg("stream.direct", GoOnly, func(args []string) (string, []string) {
+		if len(args) < 9 {
+			return "bad-op", nil
+		}
+		if _, err := strmParseSpec(args[:9]); err != nil {
+			return "bad-op", nil
+		}
+		rs, ok := strmChild([]string{"run " + strings.Join(args[:9], " ")}, 1, strmStall)
+		if len(rs) == 0 {
+			return "panic", []string{"the child produced no result"}
+		}
+		res := rs[len(rs)-1]
+		if !ok {
+			rep, detail := strmConfirm(args[:9])
+			if !rep {
+				return "ok", nil
+			}
+			if strings.Contains(detail, "died") {
+				return "panic", []string{"PANIC: " + detail}
+			}
+			return "ok", []string{detail}
+		}
+		return "ok", res.direct
+	})
 	regRunner("C16", runC16)
 }
 
@@ -1249,6 +1303,46 @@ func runC16(r *Runner) string {
 	}
 	r.strmBatch(cmds, "directed: predecessor completes last, cancel inside the drain", 1)
 
+	// 2c. directed: the node serves, for height from+k, a sibling of the block of height from+k-1 (a valid
+	// block on another branch). While the block of height from+k-2 is outstanding both wait in the ordering
+	// buffer under the same previous-hash. The scan cannot complete: it must end in an error.
+	cmds = nil
+	for p := 3; p <= 4; p++ {
+		for n := 4; n <= 7; n++ {
+			for k := 3; k < n; k++ {
+				for rep := 0; rep < r.N(1, 3); rep++ {
+					cmds = append(cmds, fmt.Sprintf("run o %d %d %d %d %d b%d:w - L%d", 300+rep, n, p, rep%2, seedBase+int64(n), k, k-2))
+				}
+			}
+		}
+		cmds = append(cmds, fmt.Sprintf("rand o 310 5 %d 0 %d b3:w - - %d %d", p, seedBase+5, r.rng.Int63n(1<<40), r.N(20, 200)))
+		cmds = append(cmds, fmt.Sprintf("rand o 311 6 %d 1 %d b4:w - - %d %d", p, seedBase+6, r.rng.Int63n(1<<40), r.N(20, 200)))
+	}
+	if r.thorough {
+		cmds = append(cmds, fmt.Sprintf("dfs o 320 4 3 0 %d b3:w - - 5000", seedBase+4))
+	}
+	r.strmBatch(cmds, "directed: a sibling of the previous block is served while their predecessor is outstanding", 1)
+
+	// 2d. scans that only prune (no script to look for): plain, every fault class at some position, cancel points
+	cmds = nil
+	for n := 1; n <= 4; n++ {
+		for p := 1; p <= 2; p++ {
+			for rep := 0; rep < r.N(2, 6); rep++ {
+				sd := seedBase + int64(n) + int64(rep)
+				cmds = append(cmds, fmt.Sprintf("run z %d %d %d 0 %d - - -", 400+rep, n, p, sd))
+				k := rep % n
+				cmds = append(cmds, fmt.Sprintf("run z %d %d %d 0 %d h%d:%c - -", 400+rep, n, p, sd, k, strmErrKindsHash[(rep+n)%len(strmErrKindsHash)]))
+				cmds = append(cmds, fmt.Sprintf("run z %d %d %d 0 %d b%d:%c - -", 400+rep, n, p, sd, k, strmErrKindsBlock[(rep+n+p)%len(strmErrKindsBlock)]))
+				cmds = append(cmds, fmt.Sprintf("run z %d %d %d 0 %d - d%d -", 400+rep, n, p, sd, rep%(n+1)))
+				if n > 1 {
+					cmds = append(cmds, fmt.Sprintf("run z %d %d %d 0 %d b%d:n - -", 400+rep, n, p, sd, 1+rep%(n-1)))
+				}
+			}
+		}
+	}
+	cmds = append(cmds, fmt.Sprintf("rand z 410 6 3 0 %d - - - %d %d", seedBase+6, r.rng.Int63n(1<<40), r.N(20, 200)))
+	r.strmBatch(cmds, "scans with no script to look for (nil / empty): they still prune, fail and cancel", 1)
+
 	// 3. seeded random schedules of larger configurations
 	cmds = nil
 	total := r.N(2400, 30000)
@@ -1291,6 +1385,7 @@ func runC16(r *Runner) string {
 		"request position, cancellation point, release-order choices). Exhaustive part: depth-first enumeration of every release order for " +
 		"n<=3, p<=2 (quick tier: for n=3 only the plans with <=1 fault and no cancel), every plan of <=2 faults (one error kind per position, rotated over transport error / RPC error / " +
 		"401 / null body / non-string / non-hex / truncated block, plus non-linking block) and cancellation at every delivery point; a separate sweep " +
+		"serves a sibling of the previous block (same previous-hash as the block one height lower) while their common predecessor is outstanding (Go-side oracles only); a separate sweep " +
 		"puts every concrete fault kind at every position. Directed part: the block of the second height completes last (policy L1), so its " +
 		"successors are released from the ordering buffer in one drain, with cancellation at every delivery point of the drain. Random part: n<=8, p<=4, half of it with GOMAXPROCS=4. A case is distinct when its spec " +
 		"and observed event trace differ; every trace is checked by the Go-side oracles (order, exactly-once, completeness, fault => error, " +
